@@ -24,7 +24,7 @@ def run(tier, seed):
     for j in jobs:
         res.absorb(j)
     res.rule = ("E1 rapidcheck over key seeds x small custom parameter sets (n in 1..64 and 128..200, k in {1,2}, N=1024, gadget (l,Bgbit), key-switch (t,basebit), noise levels incl. noise-free ring parameters) x transport x a generated "
-                "history of 0..3 earlier exports in the same process (cloud or secret, FILE or stream, same or another key set); plus both default parameter sets on both transports. Oracle on the cloud export: "
+                "history of 0..3 earlier exports in the same process (cloud or secret, FILE or stream, same or another key set); a third of the cases first export the cloud and the secret key from 2..6 threads at once on alternating transports, each thread must obtain the single-threaded bytes; plus both default parameter sets on both transports. Oracle on the cloud export: "
                 "size == |params export| + |key-switch text| + (12 + kN t 2^basebit (n+1) 4) + (12 + n kpl (k+1) N 4) with text lengths obtained through the API; strict prefix of the secret export with remainder "
                 "(4+4n)+(4+4kN); substring search for the LWE key / every ring key polynomial as int32 arrays, for every informative 32-entry (16 for small n) window of them (rolling hash), and for byte-, bit- (LSB/MSB first) "
                 "and ASCII-packed encodings with and without separators; every zero-mask row of the key-switching key must carry b = 0 and no bootstrapping row may have a zero mask (key-dependent value in clear in the "
